@@ -71,9 +71,23 @@ class Section:
 
     def render(self, counter):
         out = []
-        out.append("#>CHECK_FWVER%sVERSIONDESC=%s" % (self.sep, "*" if self.versiondesc is None else hexs(self.versiondesc)))
+        if getattr(self, "bare", False):
+            # a further data group of the same tag type that follows its predecessor WITHOUT any instruction line in between: the
+            # instructions in force (filter, interface) go on applying; a new component starts because the tag type starts again
+            self.raw_lines = []
+            out.append(marker_line(counter[0], 0xFE))
+            for adr, payload in self.lines:
+                text, raw = data_line(counter[0], self.base + (adr >> 16), adr & 0xFFFF, payload, self.checksum)
+                counter[0] += 1
+                out.append(text)
+                self.raw_lines.append(raw)
+            out.append(marker_line(counter[0], 0xFF))
+            return out
+        hx = {None: hexs, "lower": lambda b: hexs(b).lower(), "nospace": lambda b: bytes(b).hex().upper(), "dashes": lambda b: hexs(b).replace(" ", "-"),
+              "double_space": lambda b: hexs(b).replace(" ", "  "), "colons_lower": lambda b: hexs(b).replace(" ", ":").lower()}[getattr(self, "hex_style", None)]
+        out.append("#>CHECK_FWVER%sVERSIONDESC=%s" % (self.sep, "*" if self.versiondesc is None else hx(self.versiondesc)))
         if self.filt is not None:
-            out.append("#>SELECT%sFILTER=%s" % (self.sep, hexs(self.filt)))
+            out.append("#>SELECT%sFILTER=%s" % (self.sep, hx(self.filt)))
         out.append("#>SELECT_IF%sPROTOCOL=%s" % (self.sep, self.protocol if self.protocol is not None else "*"))
         if self.crc is not None:
             out.append("##CRC: " + getattr(self, "crc_format", "0x%08X") % self.crc)
